@@ -1351,3 +1351,50 @@ pub fn match_position_default_panics(s: &[u32; 4], k: u32) -> u32 {
     };
     s[i]
 }
+
+// a length fact taken before `pop()` does not hold after it
+pub fn pop_then_swap_remove_panics(mut v: Vec<u8>) -> u8 {
+    if v.len() > 0 {
+        v.pop();
+        return v.swap_remove(0);
+    }
+    0
+}
+pub fn pop_then_swap_remove_safe(mut v: Vec<u8>) -> u8 {
+    if v.len() > 1 {
+        v.pop();
+        return v.swap_remove(0);
+    }
+    0
+}
+
+// .. nor does "first() is Some" (non-empty) survive a `pop()`
+pub fn first_then_pop_swap_remove_panics(mut v: Vec<(usize, usize)>) -> usize {
+    if let Some((0, _)) = v.first() {
+        let (a, _) = v.pop().unwrap();
+        let (_, b) = v.swap_remove(0);
+        return a + b;
+    }
+    0
+}
+pub fn len_first_last_pop_swap_remove_safe(mut v: Vec<(usize, usize)>) -> usize {
+    if v.len() > 1 {
+        if let Some((0, _)) = v.first() {
+            if let Some((_, 256)) = v.last() {
+                let (a, _) = v.pop().unwrap();
+                let (_, b) = v.swap_remove(0);
+                return a.wrapping_add(b);
+            }
+        }
+    }
+    0
+}
+
+pub fn first_then_pop_swap_remove2_panics(mut v: Vec<(usize, usize)>) -> usize {
+    if let Some((0, _)) = v.first() {
+        let _ = v.pop();
+        let (_, b) = v.swap_remove(0);
+        return b;
+    }
+    0
+}
